@@ -6,25 +6,25 @@ HOOK_COMMITS = ["3408bd8"]
 
 CLAIMED = {
  "C01": ("exploration", "DESIGN.md §6 C01",
-   "Seeded simulation of a receiver node behind a fault-injecting channel: honest traffic (real builders + an independent RFC encoder) is damaged by composed channel faults, delivered to every public parsing entry point, and a tape-driven read-out history exercises every public accessor, conversion and iterator on whatever is accepted; any unwind, any iterator exceeding 5*len+32 steps, any iterator sequence that changes when re-created or interleaved, and any call stuck for 60 s is a violation. Sampling of an unbounded input x history space: evidence, not proof.",
+   "Seeded simulation of a receiver node behind a fault-injecting channel: honest traffic (real builders + an independent RFC encoder) is damaged by composed channel faults, delivered to every public parsing entry point, and a tape-driven read-out history exercises every public accessor, conversion and iterator on whatever is accepted; any unwind, any iterator exceeding 5*len+32 steps (driven by next() or by nth / skip / step_by / count / last / fold), any iterator sequence that changes when re-created or interleaved, any call stuck for 20-60 s and any call that takes the process down (located by bisection over the deterministic episodes) is a violation. Deliveries are received in place in one reused buffer; once per run a 2^20-packet chain is delivered, also to an unoptimised build. Sampling of an unbounded input x history space: evidence, not proof.",
    "Trusted: the harness's panic capture and watchdog; overflow-checks and debug-assertions are enabled so arithmetic overflow counts as a panic. Documented-panic calls (priv_prefix*) are issued on PRIV items only. Every check publishes the case it is executing; a stuck call or unbounded allocation is reported with that case (C01: VIOLATION; other checks: exit 2)."),
  "C06": ("fault_enumeration", "DESIGN.md §6 C06",
-   "Every sampled builder configuration (all builder types, wrappers, nested compounds, part builders, invalid configurations near every limit) is realised with the real builders and written into a buffer of EVERY capacity 0..=n+8: the capacity fault is enumerated exhaustively per configuration, configurations are sampled. The oracle is the statement itself (Ok(n) iff cap >= n, OutputTooSmall(n) otherwise, same error when size calculation fails, n % 4 == 0 for whole packets, no unwind).",
+   "Every sampled builder configuration (all builder types incl. stand-alone FCI builders, wrappers, nested compounds, part builders, invalid configurations near every limit; a quarter reached through a seeded call history, a quarter with size queries on the unfinished builders) is realised with the real builders and written into a buffer of EVERY capacity 0..=n+8: the capacity fault is enumerated exhaustively per configuration, configurations are sampled. The oracle is the statement itself (Ok(n) iff cap >= n, OutputTooSmall(n) otherwise, same error when size calculation fails, n % 4 == 0 for whole packets, no unwind).",
    "Exhaustive in capacity per configuration only; the configuration space is sampled. Part builders have no public calculate_size: n is the value carried by OutputTooSmall at capacity 0."),
  "C08": ("fault_enumeration", "DESIGN.md §6 C08",
-   "Around each seeded intact packet the single-fault space of the channel is enumerated exhaustively (every truncation length, all 256 values of header byte 0 and of the type byte, length-field and padding-trailer rewrites, small extensions) plus seeded double faults that re-frame damage, and once per run all 65536 values of the length field (frames exactly, just below and just above the announced size, every packet type); each delivery goes to all typed parsers, Unknown and Packet; an independent header reader with hard-coded RFC minima checks the implication accept => exactly framed, and the header accessors against the wire bytes.",
+   "Around each seeded intact packet the single-fault space of the channel is enumerated exhaustively (every truncation length, all 256 values of header byte 0 and of the type byte, length-field and padding-trailer rewrites, small extensions) plus seeded double faults that re-frame damage, and once per run all 65536 values of the length field (frames exactly, just below and just above the announced size, every packet type); each delivery goes to all typed parsers, Unknown and Packet; an independent header reader with hard-coded RFC minima checks the implication accept => exactly framed, and the header accessors (called both ways) against the wire bytes; the same for typed views obtained by try_as and for three harness-defined parsers on the public check_packet helper.",
    "Exhaustive per base in the single-fault dimension; bases and double faults are sampled. Only the implication stated by the property is checked, nothing is demanded of rejections."),
  "C11": ("fault_enumeration", "DESIGN.md §6 C11",
-   "Around each seeded compound datagram: every truncation length, extensions / coalescing, and per tile the length-field, version and type rewrites, plus seeded double faults, and once per run all 65536 values of a tile's length field; Compound::parse must accept iff a 10-line reference tiler partitions the bytes, and tape-driven reader histories (next() past the end, two interleaved iterators, re-parse and resume after partial iteration) must yield exactly Packet::parse of each reference tile up to and including the first error, then None forever.",
+   "Around each seeded compound datagram: every truncation length, extensions / coalescing, and per tile the length-field, version and type rewrites, plus seeded double faults, and once per run all 65536 values of a tile's length field; Compound::parse must accept iff a 10-line reference tiler partitions the bytes, and tape-driven reader histories (next() past the end, two interleaved iterators, re-parse and resume after partial iteration) must yield exactly Packet::parse of each reference tile up to and including the first error, then None forever, whichever Iterator method drives them (next, nth, skip, step_by, count, last, fold; through by_ref() or by value). Datagrams are parsed in place in one reused receive buffer (a reported case carries the previous content).",
    "Exhaustive per base in the single-fault dimension; bases, double faults and reader histories are sampled. Items are compared through their Debug rendering. An unwind of Compound::parse itself (acceptance undecided) or of the iterator when Packet::parse returns normally on every tile is reported as a violation."),
  "C17": ("fault_enumeration", "DESIGN.md §6 C17",
-   "Two lock-step worlds whose output buffers differ in every byte (A seeded, B = !A) perform the same writes under an exhaustive capacity sweep per configuration, each checked against a shadow buffer (bytes reported as written equal in both worlds, everything else untouched, failed writes change nothing); and an MTU-packing loop reuses one arena across 2-12 packets with flush-without-clear, comparing each flushed datagram with the images the same builders write in isolation.",
+   "Two lock-step worlds whose output buffers differ in every byte (A seeded, B = !A) perform the same writes under an exhaustive capacity sweep per configuration, each checked against a shadow buffer (bytes reported as written equal in both worlds, everything else untouched, failed writes change nothing); an unwound write must leave the buffer unchanged as well; and an MTU-packing loop reuses one arena across 2-12 packets with flush-without-clear, comparing each flushed datagram with the images the same builders write in isolation.",
    "Exhaustive in capacity per configuration and in the two residue worlds; configurations and arena histories are sampled. A write that unwinds in both worlds is C06's finding and is inconclusive here."),
  "C18": ("fault_enumeration", "DESIGN.md §6 C18",
-   "Layer A: the same exhaustive single-fault enumeration as C08/C11, including the once-per-run sweep of all 65536 length-field values; every error returned by every parser (typed, Unknown, Packet, ReportBlock, Compound, FCI parsers, parse_fci) is checked against facts computed from the delivered bytes, with the two exactness clauses applied under their stated preconditions only. Layer B: intact packets are delivered as a byte stream in seeded fragments to a reassembly loop that trusts Truncated.expected; it must emit exactly the sent packets, never wait for bytes that will not come, and finish within 3 parse calls per packet once the last fragment has arrived.",
+   "Layer A: the same exhaustive single-fault enumeration as C08/C11, including the once-per-run sweep of all 65536 length-field values; every error returned by every parser (typed, Unknown, Packet, ReportBlock, Compound and the items it yields, FCI parsers, parse_fci, the 28 conversions, three harness-defined check_packet parsers) is checked against facts computed from the delivered bytes, with the two exactness clauses applied under their stated preconditions only. Layer B: intact packets are delivered as a byte stream in seeded fragments to a reassembly loop that trusts Truncated.expected; it must emit exactly the sent packets, never wait for bytes that will not come, and finish within 3 parse calls per packet once the last fragment has arrived.",
    "Exhaustive per base in the single-fault dimension (short reads at every position); bases and fragmentations are sampled. Layer B only carries packets the parser accepts when intact. Where an exactness clause fixes what must be reported, an unwind of the parser counts as a violation of that clause."),
  "C20": ("exploration", "DESIGN.md §6 C20",
-   "Sequential refinement of the builder API against a small reference model: a tape-driven call history (permuted setters, stale overwritten calls, shuffled and repeated NACK/FIR adds, owned/borrowed variant and argument form at every position, PacketBuilder / one-member compound wrappers, a different FIR hash key) is first applied to the model, must reach the target configuration, and the real builders driven by it must announce the same size and write the same bytes as the canonical build (FIR entries as a multiset).",
+   "Sequential refinement of the builder API against a small reference model: a tape-driven call history (permuted setters, stale overwritten calls, shuffled and repeated NACK/FIR adds, owned/borrowed variant and argument form at every position, invalid stale values, constructor forms, size queries / scratch writes / Debug on the unfinished builders, PacketBuilder / one-member compound wrappers also as non-last members of an outer compound, a different FIR hash key, a differently pre-filled output buffer) is first applied to the model, must reach the target configuration, and the real builders driven by it must announce the same size and write the same bytes as the canonical build (FIR entries as a multiset); lists are also compared with the concatenation of one-element images in call order.",
    "Sampling of configurations x histories. The FIR hash key is controlled through the verif-hooks seam."),
 }
 
